@@ -42,26 +42,26 @@ const (
 	KBytes
 )
 
-func KindOf(v interface{}) int      { return 0 }
-func IntOf(v interface{}) int64     { return 0 }
-func UintOf(v interface{}) uint64   { return 0 }
-func StrOf(v interface{}) string    { return "" }
-func BytesOf(v interface{}) []byte  { return nil }
-func BoolOf(v interface{}) bool     { return false }
-func IsNilPtr(v interface{}) bool   { return false }
+func KindOf(v interface{}) int     { return 0 }
+func IntOf(v interface{}) int64    { return 0 }
+func UintOf(v interface{}) uint64  { return 0 }
+func StrOf(v interface{}) string   { return "" }
+func BytesOf(v interface{}) []byte { return nil }
+func BoolOf(v interface{}) bool    { return false }
+func IsNilPtr(v interface{}) bool  { return false }
 
 // Fork-free boolean and conditional combinators (plain && / || / if fork the
 // symbolic execution; these build one term).
-func And(a, b bool) bool            { return a && b }
-func Or(a, b bool) bool             { return a || b }
-func Implies(a, b bool) bool        { return !a || b }
-func Ite(c bool, a, b int) int      { return a }
+func And(a, b bool) bool             { return a && b }
+func Or(a, b bool) bool              { return a || b }
+func Implies(a, b bool) bool         { return !a || b }
+func Ite(c bool, a, b int) int       { return a }
 func IteByte(c bool, a, b byte) byte { return a }
-func StrEq(a, b string) bool        { return a == b }
+func StrEq(a, b string) bool         { return a == b }
 
 // Blob store used by the codec stubs (BSON/JSON round trips are modelled as
 // the identity on the Go value).
-func BlobPut(v interface{}) []byte            { return nil }
+func BlobPut(v interface{}) []byte              { return nil }
 func BlobGet(data []byte, dst interface{}) bool { return false }
 
 func LenOf(slice interface{}) int           { return 0 }
